@@ -428,7 +428,8 @@ class FmtStr:
             if isinstance(s, FmtStr):
                 chunks.extend(s.chunks)
             elif isinstance(s, (bytes, str)):
-                chunks.extend(fmtstr(s).chunks)  # TODO just make a chunk directly
+                # a plain str is taken as it is (like FmtStr + str), not parsed
+                chunks.append(Chunk(s))
             else:
                 raise TypeError("expected str or FmtStr, %r found" % type(s))
         return FmtStr(*chunks)
